@@ -28,19 +28,18 @@ META = dict(
     text="Lean theorems (PPProofs/Props/C19.lean) over a statement-by-statement model of "
          "reset_pyparsing_context.save/restore and of every public setter with its guards. FULL STRENGTH: "
          "restore_total_and_exact / live_restore_total_and_exact (for every entry state reachable from import and every "
-         "well-nested finite command sequence incl. force=True switches, bad capacities, unknown flag names and nested "
-         "contexts: no __enter__/__exit__ raises, every listed setting and the recursion_memos object are back to their "
-         "entry values, enclosing contexts untouched; the built-ins' whiteChars are back when they were in sync with the "
-         "default on entry), restore_exact (one context, arbitrary state inside), new_expr_after_exit, "
+         "well-nested finite command sequence incl. force=True switches, bad capacities, unknown flag names, nested "
+         "contexts, re-entered context objects, exit through ctx.copy() and repeated restore(): no __enter__/__exit__ raises, every listed setting and the recursion_memos object are back to their "
+         "entry values, every built-in's whiteChars is back, enclosing contexts untouched), restore_exact (one context, arbitrary state inside), new_expr_after_exit, "
          "packrat_lr_exclusive + packrat_lr_never_both + parse_selector_follows_packrat (each setter refuses while the "
          "other mode is on unless force=True; never both on, and _parse is the caching function exactly while packrat is "
          "on, after any history), enablePackrat_idempotent/_twice, users_untouched (no setting change and no context "
          "entry/exit touches an existing user expression). PARTIAL: default_ws_scope_partial speaks about the "
          "whiteChars/copyDefaultWhiteChars attributes (new expressions, copies, composites over existing expressions, "
          "built-ins, existing user expressions); that these attributes decide what an expression skips is checked on the "
-         "real parser by the oracle only. builtins_unsynced_not_restored proves that the pristine built-in line_start is "
-         "NOT restored when the default is changed inside a context (open known finding). Cache/memo contents are not "
-         "settings and are not modelled.",
+         "real parser by the oracle only. live_builtins_restored_though_unsynced: the pristine built-in line_start (own "
+         "set differs from the default) is changed inside and restored on exit (finding fixed by /repo e056afa). "
+         "Cache/memo contents are not settings and are not modelled.",
     note="Trusted: Lean kernel; axioms propext/Classical.choice/Quot.sound; the Settings transcription (tied to /repo by "
          "a differential run on every check: full raw state incl. object identity of the cache/memo tables after every "
          "command of random and exhaustive histories) and the class data regenerated from the live package into "
@@ -56,7 +55,7 @@ THEOREMS = [NS + t for t in (
     "restore_exact",
     "restore_total_and_exact",
     "live_restore_total_and_exact",
-    "builtins_unsynced_not_restored",
+    "live_builtins_restored_though_unsynced",
     "packrat_lr_exclusive",
     "packrat_lr_never_both",
     "live_packrat_lr_never_both",
@@ -70,7 +69,6 @@ THEOREMS = [NS + t for t in (
 
 GEN_REL = "PPProofs/Props/Gen/Settings.lean"
 LIT_CLASSES = ["Literal", "Suppress", "CaselessLiteral", "Keyword", "CaselessKeyword"]
-KNOWN_SIG = "unsynced_builtin_whitechars_not_restored"
 CORPUS = common.VERIF / "corpus" / "C19"
 
 
@@ -301,23 +299,32 @@ def run_real(W: World, case):
         for i, op in enumerate(case["setup"]):
             apply_op(W, op, i + len(op))
         entry = snapshot(W)
-        stack, ctx_err, out, probes = [], False, [], []
+        stack, ctx_err, out, probes, last_ctx = [], False, [], [], None
         for i, c in enumerate(case["cmds"]):
             variant = i + len(c)
-            if c == "enter":
-                ctx = W.pp.testing.reset_pyparsing_context()
+            if c in ("enter", "reenter"):
+                if c == "reenter" and last_ctx is not None:
+                    ctx, last_ctx = last_ctx, None      # the very same object is entered again
+                else:
+                    if c == "reenter":
+                        last_ctx = None
+                    ctx = W.pp.testing.reset_pyparsing_context()
                 try:
                     ctx.save() if variant % 2 else ctx.__enter__()
                     stack.append(ctx)
                     err = "ok"
                 except Exception as e:  # noqa: BLE001
                     err, ctx_err = type(e).__name__, True
-            elif c == "exit":
+            elif c in ("exit", "exitcopy"):
                 if stack:
                     ctx = stack.pop()
+                    last_ctx = ctx
                     try:
                         v = variant % 3
-                        if v == 0:
+                        if c == "exitcopy":
+                            cp = ctx.copy()
+                            cp.restore() if v else cp.__exit__(None, None, None)
+                        elif v == 0:
                             ctx.__exit__(None, None, None)
                         elif v == 1:
                             ctx.restore()
@@ -326,10 +333,19 @@ def run_real(W: World, case):
                             if ctx.__exit__(KeyError, exc, None):
                                 raise common.HarnessError("__exit__ swallowed the exception")
                         err = "ok"
+                    except common.HarnessError:
+                        raise
                     except Exception as e:  # noqa: BLE001
                         err, ctx_err = type(e).__name__, True
                 else:
                     err = "ok"
+            elif c == "restorelast":
+                err = "ok"
+                if last_ctx is not None:
+                    try:
+                        last_ctx.restore()
+                    except Exception as e:  # noqa: BLE001
+                        err, ctx_err = type(e).__name__, True
             else:
                 err = apply_op(W, c, variant)
             out.append([snapshot(W), Sym(err), len(stack), ctx_err])
@@ -394,11 +410,6 @@ def _worker(case):
 # =================================================================================================
 # oracle: the theorem statements, on real snapshots
 # =================================================================================================
-def _synced_flags(snap):
-    w = "".join(sorted(set(snap[I_WS]))) if isinstance(snap[I_WS], str) else None
-    return [b[1] is not True or b[0] == w for b in snap[I_BUILTINS]]
-
-
 def oracle(W, case, entry, tr, probes=None):
     """returns list of problems: dict(atom=<class of failure>, at=<command index>, expected=..., actual=..., theorem=...)"""
     probs = []
@@ -408,6 +419,7 @@ def oracle(W, case, entry, tr, probes=None):
 
     prev = entry
     stack = []
+    last_ent = None
     for i, (c, (snap, err, depth, ctx_err)) in enumerate(zip(case["cmds"], tr)):
         err = str(err)
         o_prev, o_now = obs(prev), obs(snap)
@@ -419,9 +431,6 @@ def oracle(W, case, entry, tr, probes=None):
             add("parse-function-inconsistent-with-packrat-flag", i, "_parse is _parseCache exactly while packrat is enabled",
                 {"_parse": snap[I_PSEL], "_packratEnabled": snap[I_PK], "left_recursion": snap[I_LR]},
                 "parse_selector_follows_packrat")
-        if not isinstance(c, str) and c[0] == "setws":
-            for fr in stack:
-                fr[1] = True
         if probes is not None:
             lit, kw, ws = probes[i]
             if snap[I_LIT] < len(LIT_CLASSES) and lit != LIT_CLASSES[snap[I_LIT]]:
@@ -431,16 +440,33 @@ def oracle(W, case, entry, tr, probes=None):
             if isinstance(snap[I_WS], str) and ws != "".join(sorted(set(snap[I_WS]))):
                 add("default-whitespace-not-used-by-new-expression", i, "".join(sorted(set(snap[I_WS]))), ws,
                     "default_ws_scope_partial")
-        if c == "enter":
+        if c in ("enter", "reenter"):
+            if c == "reenter":
+                last_ent = None
             if err != "ok":
                 add(f"enter-raises:{err}", i, "no exception from __enter__", err, "restore_total_and_exact")
             else:
-                stack.append([prev, False])
+                stack.append(prev)
             if snap != prev:
                 add("enter-changes-state", i, "save() changes nothing", "state changed", "restore_total_and_exact")
-        elif c == "exit":
+        elif c == "restorelast":
+            if last_ent is not None:
+                if err != "ok":
+                    add(f"restore-again-raises:{err}", i, "no exception from restore()", err, "restore_exact")
+                else:
+                    o_ent = obs(last_ent)
+                    for k in o_ent:
+                        if o_ent[k] != o_now[k]:
+                            add(f"restore-again-not-exact:{k}", i, {k: o_ent[k]}, {k: o_now[k]}, "restore_exact")
+                    if last_ent[I_BUILTINS] != snap[I_BUILTINS]:
+                        add("restore-again-not-exact:builtin-whiteChars", i, "built-ins as when the context was entered",
+                            "differ", "restore_exact")
+            elif snap != prev:
+                add("restore-again-without-context-changes-state", i, "no change", "state changed", "restore_exact")
+        elif c in ("exit", "exitcopy"):
             if stack:
-                ent, ws_changed_inside = stack.pop()
+                ent = stack.pop()
+                last_ent = ent
                 if err != "ok":
                     add(f"exit-raises:{err}", i, "no exception from __exit__", err, "restore_total_and_exact")
                 else:
@@ -448,10 +474,8 @@ def oracle(W, case, entry, tr, probes=None):
                     for k in o_ent:
                         if o_ent[k] != o_now[k]:
                             add(f"not-restored:{k}", i, {k: o_ent[k]}, {k: o_now[k]}, "restore_total_and_exact")
-                    sy = _synced_flags(ent)
                     for j, (b0, b1) in enumerate(zip(ent[I_BUILTINS], snap[I_BUILTINS])):
-                        # known finding region: built-in not in sync on entry AND the default was set inside
-                        if b0 != b1 and (sy[j] or not ws_changed_inside):
+                        if b0 != b1:
                             add("not-restored:builtin-whiteChars", i, {"builtin": str(W.builtins[j]), "value": b0},
                                 {"builtin": str(W.builtins[j]), "value": b1}, "restore_total_and_exact")
                             break
@@ -717,17 +741,19 @@ def gen_case(rng, W, malformed=False):
     for _ in range(n):
         r = rng.random()
         if r < 0.12 and depth < 4:
-            cmds.append("enter")
+            cmds.append("enter" if rng.random() < 0.7 else "reenter")
             depth += 1
         elif r < 0.22 and (depth > 1 or (malformed and r < 0.18)):
-            cmds.append("exit")
+            cmds.append("exit" if rng.random() < 0.7 else "exitcopy")
             depth = max(0, depth - 1)
+        elif r < 0.25:
+            cmds.append("restorelast")
         else:
             op = gen_op(rng, W, users)
             users += op[0] in ("new", "copy", "wrap")
             cmds.append(op)
     if not malformed:
-        cmds.extend(["exit"] * depth)
+        cmds.extend([rng.choice(["exit", "exit", "exitcopy"]) for _ in range(depth)])
     elif rng.random() < 0.5:
         cmds.extend(["exit"] * rng.randint(0, depth + 1))
     return {"setup": setup, "cmds": cmds}
@@ -735,7 +761,8 @@ def gen_case(rng, W, malformed=False):
 
 MODE_ENTRIES = [[], [["packrat", None, False]], [["packrat", 64, False]], [["lr", None, False]], [["lr", 8, False]]]
 MODE_OPS = [["packrat", 5, False], ["packrat", 5, True], ["packrat", None, True], ["lr", None, False],
-            ["lr", None, True], ["lr", 3, True], ["lr", 0, True], ["disable"], "enter", "exit"]
+            ["lr", None, True], ["lr", 3, True], ["lr", 0, True], ["disable"], "enter", "exit", "reenter",
+            "exitcopy", "restorelast"]
 
 
 def exhaustive_mode_cases(maxlen):
@@ -747,9 +774,9 @@ def exhaustive_mode_cases(maxlen):
             for seq in itertools.product(MODE_OPS, repeat=n):
                 d, ok = 1, True
                 for c in seq:
-                    if c == "enter":
+                    if c in ("enter", "reenter"):
                         d += 1
-                    elif c == "exit":
+                    elif c in ("exit", "exitcopy"):
                         d -= 1
                         if d < 1:
                             ok = False
@@ -790,18 +817,6 @@ def shrink(case, atom, budget=200):
 # =================================================================================================
 # run
 # =================================================================================================
-def _is_known_witness_failure(W, entry):
-    """does the registered witness still fail the recorded way?"""
-    case = entry["witness"]
-    ent, tr, _ = run_real(W, case)
-    if not tr or str(tr[-1][1]) != "ok":
-        return False, None
-    sy = _synced_flags(ent)
-    bad = [(str(W.builtins[j]), b0, b1) for j, (b0, b1) in enumerate(zip(ent[I_BUILTINS], tr[-1][0][I_BUILTINS]))
-           if b0 != b1 and not sy[j]]
-    return bool(bad), bad
-
-
 def run(ctx):
     W = world()
     W.hard_reset()
@@ -810,12 +825,12 @@ def run(ctx):
     ctx.rule.append(
         "histories: entry configuration = 0..4 random setters from the pristine import state; body = 1..14 commands "
         "(45% mode setters incl. force=True and bad capacities, other setters incl. unknown flag names, expression "
-        "new/copy/composite/set_whitespace_chars, nested enter/exit to depth 4) wrapped in a context; malformed stream = "
+        "new/copy/composite/set_whitespace_chars, nested enter/exit to depth 4 incl. re-entering the last exited context "
+        "object, exit through ctx.copy(), and restore() called again on an exited context) wrapped in a context; malformed stream = "
         "unbalanced enter/exit; exhaustive stream = 5 mode entry configurations x all sequences up to length L over "
-        "10 mode commands; non-trivial = the body changes at least one observable setting; built-ins that are not in "
-        "sync with the default at context entry (pristine line_start) are excluded from the restore oracle for blocks "
-        "inside which set_default_whitespace_chars is called "
-        f"(known finding {KNOWN_SIG}; its registered witness is replayed from the corpus)"
+        "13 mode commands; non-trivial = the body changes at least one observable setting; every built-in's whiteChars "
+        "is compared at every context exit (the witness of the fixed finding unsynced_builtin_whitechars_not_restored "
+        "runs from the corpus as an ordinary regression case)"
     )
     ctx.assumptions.append(
         "C19: cache/memo contents are not settings and are not modelled; whitespace *skipping* behaviour is "
@@ -829,14 +844,6 @@ def run(ctx):
         for f in sorted(CORPUS.glob("*.json")):
             d = json.loads(f.read_text())
             corpus_cases.append(d["case"] if "case" in d else d)
-    for e in ctx.known_entries:
-        if e.get("status") == "open" and e.get("signature") == KNOWN_SIG:
-            still, bad = _is_known_witness_failure(W, e)
-            if still:
-                ctx.fail_input("built-in whiteChars not restored", e["witness"], "built-in whiteChars as on entry", bad,
-                               theorem=NS + "builtins_unsynced_not_restored", signature=KNOWN_SIG)
-            ctx.count_cases("known-finding-witness", 1, outcomes={"still-fails" if still else "no-longer-fails": 1})
-
     # ---- cases ------------------------------------------------------------------------------------------
     rng = ctx.subrng("histories")
     streams = [
@@ -893,7 +900,7 @@ def run(ctx):
         for c in diff_cases[:50]:
             for j in range(1, len(c["cmds"]) + 1):
                 pre = [x for x in c["cmds"][:j]]
-                d = sum(1 for x in pre if x == "enter") - sum(1 for x in pre if x == "exit")
+                d = sum(1 for x in pre if x in ("enter", "reenter")) - sum(1 for x in pre if x in ("exit", "exitcopy"))
                 extra.append({"setup": c["setup"], "cmds": ["enter", *pre, *(["exit"] * max(d + 1, 1))]})
         extra += exhaustive_mode_cases(3)
         extra += [gen_case(srng, W) for _ in range(ctx.budget(20000, 60000))]
@@ -915,7 +922,8 @@ def run(ctx):
             by_atom[a] = (c, p, size)
 
     def prio(a):
-        return (0 if "raises" in a else 1 if a.startswith("not-restored") else 2, a)
+        return (0 if a.startswith(("exit-raises", "enter-raises")) else 1 if a.startswith("not-restored")
+                else 2 if a.startswith("restore-again") else 3, a)
 
     for a in sorted(by_atom, key=prio)[:6]:
         c, p, _ = by_atom[a]
@@ -938,8 +946,6 @@ def replay(data):
     if isinstance(case, dict) and "cmds" in case:
         atom = data.get("kind")
         probs = problems_of({"setup": case.get("setup", []), "cmds": case["cmds"]})
-        if data.get("signature") == KNOWN_SIG:
-            return _is_known_witness_failure(W, {"witness": case})[0]
         return any(p["atom"] == atom for p in probs) if atom else bool(probs)
     ctx = common.Ctx("C19", "quick", data.get("seed", 0))
     run(ctx)
